@@ -388,6 +388,7 @@ func (r *Rng) c03Render(t *c03Table, n *c03Rt, mode int) *c03Rt {
 type c03Tok struct {
 	Typ int    `json:"t"`
 	Img string `json:"i"`
+	Q   bool   `json:"q,omitempty"` // identifier written in quotes even if it is a plain word
 }
 
 const (
@@ -409,7 +410,7 @@ const (
 )
 
 func (t *c03Table) flatten(n *c03Rt, out *[]c03Tok) {
-	emit := func(typ int, img string) { *out = append(*out, c03Tok{typ, img}) }
+	emit := func(typ int, img string) { *out = append(*out, c03Tok{Typ: typ, Img: img}) }
 	args := func(closeTyp int, closeImg string) {
 		for i, a := range n.Args {
 			if i > 0 {
@@ -487,7 +488,7 @@ func (r *Rng) c03Text(t *c03Table, toks []c03Tok) string {
 		word, op, num := false, false, false
 		switch tk.Typ {
 		case c03ttIdent:
-			if c03IsWordy(img) && !(img[0] >= '0' && img[0] <= '9') {
+			if !tk.Q && c03IsWordy(img) && !(img[0] >= '0' && img[0] <= '9') {
 				word = true
 			} else {
 				img = "'" + img + "'"
@@ -640,6 +641,7 @@ func (cr *c03Runner) run(c *c03Case) {
 	t := c.Table
 	var toks []parser2.VerifPTok
 	var dump string
+	var fragAst parser2.AST
 	outcome := "ok"
 	func() {
 		defer func() {
@@ -673,6 +675,7 @@ func (cr *c03Runner) run(c *c03Case) {
 			return
 		}
 		dump = parser2.VerifParseDump(ast, c03StrConst)
+		fragAst = ast
 	}()
 	sum.Evaluations++
 	kindName := []string{"rendering", "fragment-mutant", "program", "program-mutant"}[c.Kind]
@@ -733,6 +736,32 @@ func (cr *c03Runner) run(c *c03Case) {
 	case c.Kind == 1 || c.Kind == 3:
 		if outcome == "ok" && !c03Balanced(toks) {
 			viol("input with unbalanced brackets was accepted", "accepted-unbalanced", "error")
+		} else if outcome == "ok" && c.Kind == 1 && fragAst != nil && !c.WithMap {
+			// an accepted input is accounted for token by token, kind by kind: operators of the AST are operator
+			// tokens, constants are literals, names are identifiers - in the order they were written
+			var got, want []c03Tok
+			if c03Yield(fragAst, &got) {
+				for _, k := range toks {
+					switch k.Typ {
+					case c03ttIdent, c03ttNumber, c03ttString, c03ttOperate:
+						want = append(want, c03Tok{Typ: k.Typ, Img: k.Image})
+					}
+				}
+				same := len(got) == len(want)
+				for i := 0; same && i < len(got); i++ {
+					same = got[i].Typ == want[i].Typ && got[i].Img == want[i].Img
+				}
+				if !same {
+					sg := "accounting"
+					for i := 0; i < len(got) && i < len(want); i++ {
+						if got[i] != want[i] {
+							sg = fmt.Sprintf("accounting:token-type-%d-read-as-%d", want[i].Typ, got[i].Typ)
+							break
+						}
+					}
+					viol("the accepted AST does not account for the tokens as written (a token was dropped, regrouped or read as another kind)", sg, fmt.Sprint(want))
+				}
+			}
 		}
 	case c.Kind == 2:
 		if outcome != "ok" {
@@ -924,6 +953,118 @@ func (g *c03ProgGen) postfixBase(d int) string {
 	return "( " + g.expr(d-1) + " )"
 }
 
+// ---- disguised operators
+
+type c03Dis struct {
+	toks    []c03Tok
+	replace bool
+	kind    string
+	note    string
+}
+
+// every replacement of an operator token, and every insertion after a complete operand, by a string literal
+// and by a quoted identifier spelling an operator or a text alias of the table
+func c03Disguised(t *c03Table, toks []c03Tok) []c03Dis {
+	var out []c03Dis
+	forms := func(img string) []c03Tok {
+		return []c03Tok{{Typ: c03ttString, Img: img}, {Typ: c03ttIdent, Img: img, Q: true}}
+	}
+	seen := map[string]bool{}
+	var spellings []string
+	for _, l := range [][]string{t.Ops, t.Unary} {
+		for _, o := range l {
+			if !seen[o] {
+				seen[o] = true
+				spellings = append(spellings, o)
+			}
+		}
+	}
+	for _, w := range sortedKeys(t.Alias) {
+		if !seen[w] {
+			seen[w] = true
+			spellings = append(spellings, w)
+		}
+	}
+	for i, k := range toks {
+		if k.Typ == c03ttOperate {
+			for _, f := range forms(k.Img) {
+				nt := append(append(append([]c03Tok{}, toks[:i]...), f), toks[i+1:]...)
+				out = append(out, c03Dis{toks: nt, replace: true, kind: "disguise-replace",
+					note: fmt.Sprintf("operator token %d (%s) replaced by a %s with the same text", i, k.Img, map[int]string{c03ttString: "string literal", c03ttIdent: "quoted identifier"}[f.Typ])})
+			}
+		}
+		operandEnd := k.Typ == c03ttIdent || k.Typ == c03ttNumber || k.Typ == c03ttString || k.Typ == c03ttClose || k.Typ == c03ttCloseBracket
+		if operandEnd {
+			for _, sp := range spellings {
+				for _, f := range forms(sp) {
+					nt := append(append(append([]c03Tok{}, toks[:i+1]...), f), toks[i+1:]...)
+					out = append(out, c03Dis{toks: nt, kind: "disguise-insert",
+						note: fmt.Sprintf("%s spelling %s inserted after the operand ending at token %d", map[int]string{c03ttString: "string literal", c03ttIdent: "quoted identifier"}[f.Typ], sp, i)})
+				}
+			}
+		}
+	}
+	return out
+}
+
+// content tokens of an accepted input in the order of the AST, with their kinds: an operator of the AST must
+// come from an operator token, a constant from a literal or constant identifier, a name from an identifier
+func c03Yield(a parser2.AST, out *[]c03Tok) bool {
+	list := func(l []parser2.AST) bool {
+		for _, x := range l {
+			if !c03Yield(x, out) {
+				return false
+			}
+		}
+		return true
+	}
+	switch n := a.(type) {
+	case *parser2.Operate:
+		if !c03Yield(n.A, out) {
+			return false
+		}
+		*out = append(*out, c03Tok{Typ: c03ttOperate, Img: n.Operator})
+		return c03Yield(n.B, out)
+	case *parser2.Unary:
+		*out = append(*out, c03Tok{Typ: c03ttOperate, Img: n.Operator})
+		return c03Yield(n.Value, out)
+	case *parser2.MapAccess:
+		if !c03Yield(n.MapValue, out) {
+			return false
+		}
+		*out = append(*out, c03Tok{Typ: c03ttIdent, Img: n.Key})
+		return true
+	case *parser2.MethodCall:
+		if !c03Yield(n.Value, out) {
+			return false
+		}
+		*out = append(*out, c03Tok{Typ: c03ttIdent, Img: n.Name})
+		return list(n.Args)
+	case *parser2.ListAccess:
+		return c03Yield(n.List, out) && c03Yield(n.Index, out)
+	case *parser2.ListLiteral:
+		return list(n.List)
+	case *parser2.FunctionCall:
+		return c03Yield(n.Func, out) && list(n.Args)
+	case *parser2.Ident:
+		*out = append(*out, c03Tok{Typ: c03ttIdent, Img: n.Name})
+		return true
+	case *parser2.Const[string]:
+		v := n.Value
+		typ := map[byte]int{'n': c03ttNumber, 's': c03ttString, 'c': c03ttIdent}
+		if len(v) < 2 || v[1] != ':' {
+			return false
+		}
+		ty, ok := typ[v[0]]
+		if !ok {
+			return false
+		}
+		*out = append(*out, c03Tok{Typ: ty, Img: v[2:]})
+		return true
+	}
+	return false
+}
+
 // ---------------------------------------------------------------- driver
 
 func (cr *c03Runner) rendering(r *Rng, t *c03Table, tree *c03Rt, mode int, withMap bool) (*c03Case, []c03Tok) {
@@ -977,6 +1118,12 @@ func (cr *c03Runner) corpus() {
 		c, _ := cr.rendering(r, t2, tree, mode, false)
 		c.Note = "corpus: follow bound of a prefix operator that is also binary; " + c.Note
 		cr.run(c)
+	}
+	// disguised operators: a string literal / quoted identifier spelling an operator or a text alias is an operand
+	t3 := &c03Table{Ops: []string{"+", "<=", "*"}, Unary: []string{"+"}, Alias: map[string]string{"plus": "+"}, Idents: c03BaseIdents}
+	for _, s := range []string{"a \"+\" b", "a '*' b", "f(a '*' b)", "a \"<=\" b", "a '<=' b", "a 'plus' b", "a \"plus\" b", "\"+\" a", "'+' a",
+		"a + \"+\"", "a plus '*'", "a \"+\" (b)", "f('*')", "[a \"*\" b]", "a.m(b '+' c)", "a[1 \"+\" 2]"} {
+		cr.run(&c03Case{Table: t3, Text: s, Kind: 1, Note: "corpus: string literal / quoted identifier spelling an operator or alias in operator position"})
 	}
 	for _, s := range []string{"a * - b * c", "(a", "a)", "a b", "a *", "* a", "f(a,,b)", "f(a b)", "a[1", "a.", "a.(b)", "(a,b)", "a.m(", "[a,b", "()", "a - - b", "-", ""} {
 		cr.run(&c03Case{Table: t2, Text: s, Kind: 1, Note: "corpus: malformed or boundary input"})
@@ -1033,12 +1180,15 @@ func cmdC03(seed int64, tier, outDir string) {
 	tables *= optBoost
 	progs *= optBoost
 	insertable := func(t *c03Table) []c03Tok {
-		l := []c03Tok{{c03ttOpen, "("}, {c03ttClose, ")"}, {c03ttOpenBracket, "["}, {c03ttCloseBracket, "]"}, {c03ttComma, ","}, {c03ttDot, "."}, {c03ttIdent, "a"}, {c03ttNumber, "1"}}
+		var l []c03Tok
+		for _, k := range [][2]any{{c03ttOpen, "("}, {c03ttClose, ")"}, {c03ttOpenBracket, "["}, {c03ttCloseBracket, "]"}, {c03ttComma, ","}, {c03ttDot, "."}, {c03ttIdent, "a"}, {c03ttNumber, "1"}} {
+			l = append(l, c03Tok{Typ: k[0].(int), Img: k[1].(string)})
+		}
 		for _, o := range t.Ops {
-			l = append(l, c03Tok{c03ttOperate, o})
+			l = append(l, c03Tok{Typ: c03ttOperate, Img: o})
 		}
 		for _, u := range t.Unary {
-			l = append(l, c03Tok{c03ttOperate, u})
+			l = append(l, c03Tok{Typ: c03ttOperate, Img: u})
 		}
 		return l
 	}
@@ -1136,6 +1286,41 @@ func cmdC03(seed int64, tier, outDir string) {
 					sum.Count("mutation", "insert")
 				}
 				cr.run(&c03Case{Table: t, Text: r.c03Text(t, toks), Kind: 1, Note: note})
+			}
+			// disguised operators: a string literal or a quoted identifier whose text spells an operator of the
+			// table (or one of its text aliases) is an operand, never an operator - replacing an operator token by
+			// it, or inserting it after a complete operand, must not be read as that operator
+			dis := c03Disguised(t, minToks)
+			r.Shuffle(len(dis), func(i, j int) { dis[i], dis[j] = dis[j], dis[i] })
+			sort.SliceStable(dis, func(i, j int) bool { return dis[i].replace && !dis[j].replace })
+			nd := muts * 6 / 10
+			if tier == "thorough" && len(dis) < 400 {
+				nd = len(dis)
+			}
+			if nd > len(dis) {
+				nd = len(dis)
+			}
+			// quick: replacements and insertions alternate
+			var rep, insd []c03Dis
+			for _, d := range dis {
+				if d.replace {
+					rep = append(rep, d)
+				} else {
+					insd = append(insd, d)
+				}
+			}
+			var mixd []c03Dis
+			for i := 0; i < len(rep) || i < len(insd); i++ {
+				if i < len(rep) {
+					mixd = append(mixd, rep[i])
+				}
+				if i < len(insd) {
+					mixd = append(mixd, insd[i])
+				}
+			}
+			for _, d := range mixd[:nd] {
+				sum.Count("mutation", d.kind)
+				cr.run(&c03Case{Table: t, Text: r.c03Text(t, d.toks), Kind: 1, Note: d.note})
 			}
 		}
 	}
